@@ -15,6 +15,7 @@
 //!   approve sid now caller id r
 //!   approveb sid now caller r id1,id2,…|-      (the BATCH instruction `approve_instructions`, buffers as remaining accounts)
 //!   cancel  sid now caller id r rrUser
+//!   cancelb sid now caller r rrUser id1,id2,…|-   (the BATCH instruction `cancel_instructions`)
 //!   exec    sid now caller id r rrUser
 //!   delay   sid now caller delta
 use anchor_lang::prelude::*;
@@ -496,6 +497,51 @@ fn exec(c: &Consts, ws: &mut BTreeMap<String, World>, req: &str, out: &mut Out) 
             let _ = before_digest;
             (format!("{} | {}", if ok { "ok" } else { "err" }, digest(c, w)), false)
         }
+        "cancelb" => {
+            // the real batch cancel; all-or-nothing
+            let (Some(caller), Some(r), Some(rr), Some(idt)) = (parse::<u8>(&t, 4), parse::<usize>(&t, 5), parse::<u8>(&t, 6), t.get(7)) else { return bad() };
+            if t.len() != 8 || caller >= 6 || r >= 3 || rr >= 6 || rr == caller { return bad(); }
+            let ids: Vec<u8> = if *idt == "-" { vec![] } else { match idt.split(',').map(|x| if x.bytes().all(|b| b.is_ascii_digit()) { x.parse::<u8>().ok() } else { None }).collect::<Option<Vec<u8>>>() { Some(v) => v, None => return bad() } };
+            if ids.len() > 10 || ids.iter().any(|i| *i >= 10) { return bad(); }
+            let (auth, store, sprog) = base_accounts(c, w, caller);
+            let mut accs = vec![auth, store, executor_acc(c, r), Acc::new(user_key(rr), sys, &[]).writable(), sprog];
+            let rr_lamports0 = accs[3].lamports;
+            let mut order: Vec<usize> = (0..5).collect();
+            let mut pos: BTreeMap<u8, usize> = BTreeMap::new();
+            for id in &ids {
+                let at = *pos.entry(*id).or_insert_with(|| {
+                    accs.push(match w.bufs.get(id) { Some(b) => Acc::new(buf_key(*id), tl::ID, b).writable(), None => Acc::new(buf_key(*id), sys, &[]).writable().lamports(0) });
+                    accs.len() - 1
+                });
+                order.push(at);
+            }
+            let buf_lamports: u64 = pos.values().map(|at| accs[*at].lamports).sum();
+            let ixd = tl::instruction::CancelInstructions {}.data();
+            let (ok, after) = call_entry_order(&mut accs, &order, &ixd);
+            if ok {
+                // ---- property oracle
+                if !w.store.has_role(&user_key(caller), tl::roles::TIMELOCK_ADMIN).unwrap_or(false) { out.oracle_fail("batch cancelled by a non-admin", req); }
+                if pos.len() != ids.len() { out.oracle_fail("a batch cancel listing a buffer twice succeeded", req); }
+                let hsz = std::mem::size_of::<InstructionHeader>();
+                for (id, at) in &pos {
+                    match w.bufs.get(id).cloned() {
+                        Some(b) => {
+                            let h: InstructionHeader = *bytemuck::from_bytes(&b[8..8 + hsz]);
+                            if own_role(c, &b) != Some(r) { out.oracle_fail("batch cancel closed a buffer of another executor than the one named in the call", req); }
+                            if *h.rent_receiver() != user_key(rr) { out.oracle_fail("batch cancel paid a buffer's rent to an address that is not its recorded rent receiver", req); }
+                            let a = &after[*at];
+                            if a.0 != sys || !a.2.is_empty() || a.1 != 0 { out.oracle_fail("a batch-cancelled buffer account was not closed", req); }
+                        }
+                        None => out.oracle_fail("a batch cancel succeeded on a missing buffer", req),
+                    }
+                    w.bufs.remove(id);
+                    w.ghost.remove(id);
+                }
+                if after[3].1 != rr_lamports0 + buf_lamports { out.oracle_fail("the rent receiver did not receive exactly the lamports of the cancelled buffers", req); }
+                out.stat(&format!("cancelb.ok.n{}", ids.len().min(3)));
+            }
+            (format!("{} | {}", if ok { "ok" } else { "err" }, digest(c, w)), ok && !ids.is_empty())
+        }
         "cancel" | "exec" => {
             let (Some(caller), Some(id), Some(r), Some(rr)) = (parse::<u8>(&t, 4), parse::<u8>(&t, 5), parse::<usize>(&t, 6), parse::<u8>(&t, 7)) else { return bad() };
             if t.len() != 8 || caller >= 6 || id >= 10 || r >= 3 || rr >= 6 { return bad(); }
@@ -636,7 +682,7 @@ fn gen_next(r: &mut Rng, c: &Consts, ws: &BTreeMap<String, World>, g: &mut Gen, 
             _ => return format!("tl delayf {sid} {} {} {}", g.now, pick(r, &admins, 1), r.range(1, 300)),
         }
     }
-    match r.below(14) {
+    match r.below(15) {
         0 | 1 | 2 => {
             let id = if r.chance(9, 10) { (0..10u8).find(|i| !open.iter().any(|o| o.0 == *i)).unwrap_or(r.below(10) as u8) } else { r.below(10) as u8 };
             let role = r.below(3) as usize;
@@ -729,6 +775,24 @@ fn gen_next(r: &mut Rng, c: &Consts, ws: &BTreeMap<String, World>, g: &mut Gen, 
                 }
             }
             req
+        }
+        14 => {
+            // BATCH cancel through the executor of `role` for rent receiver `rr`: matching buffers, sometimes a buffer of
+            // another executor / another rent receiver / a missing one / one listed twice / the empty batch
+            let (role, rr) = if !open.is_empty() && r.chance(9, 10) { let o = open[r.below(open.len() as u64) as usize]; (o.1, o.4) } else { (r.below(3) as usize, r.below(6) as u8) };
+            let mut ids: Vec<u8> = open.iter().filter(|o| o.1 == role && o.4 == rr && r.chance(3, 4)).map(|o| o.0).collect();
+            match r.below(12) {
+                0 | 1 => { if let Some(o) = open.iter().find(|o| o.1 != role) { if r.chance(1, 2) { ids.push(o.0) } else { ids.insert(0, o.0) } } }
+                2 => { if let Some(o) = open.iter().find(|o| o.4 != rr) { ids.push(o.0); } }
+                3 => ids.push((0..10u8).find(|i| !open.iter().any(|o| o.0 == *i)).unwrap_or(9)),
+                4 => { if let Some(x) = ids.first().copied() { ids.push(x); } }
+                5 => ids.clear(),
+                _ => {}
+            }
+            ids.truncate(10);
+            let mut caller = pick(r, &admins, 1);
+            if caller == rr { caller = *admins.iter().find(|k| **k != rr).unwrap_or(&((rr + 1) % 6)); }
+            format!("tl cancelb {sid} {} {caller} {role} {rr} {}", g.now, if ids.is_empty() { "-".to_string() } else { ids.iter().map(|i| i.to_string()).collect::<Vec<_>>().join(",") })
         }
         10 => {
             let delta: u32 = match r.below(14) { 0 => 0, 1 => u32::MAX, _ => r.range(1, 300) as u32 };
